@@ -147,6 +147,9 @@ def run_check(pid, mod, chk, modname, args, seed, scratch, t_start):
     base_env["MIASM_VERIF"] = "1"
     base_env["PYTHONDONTWRITEBYTECODE"] = "1"
     pypath = [ROOT]
+    if os.path.realpath(REPO) != "/repo":
+        # mutation trials: a scratch copy of the repository replaces the editable install
+        pypath.insert(0, REPO)
     if chk.get("deps"):
         pypath.append(deps.ensure())
 
